@@ -464,10 +464,10 @@ CONTRACTS["JubJubScalar::one"] = lambda it, recv, a: VOpaque("JubJubScalar::one"
 
 def c_assert_canonical_jubjub_scalar(it, recv, a):
     s = a[0]
-    ev(it, "range_check", s, 252)                                              # s < 2^252
+    c_range_check_call(it, None, [s, 252])                                              # s < 2^252
     maxs = VOpaque("BlsScalar::from", [-P(VOpaque("JubJubScalar::one"))])      # r_jubjub - 1 as a BLS scalar
     dist = c_gate("gate_add")(it, None, [cons({"q_l": -C(1), "a": s, "q_c": maxs})])   # (r_j - 1) - s
-    ev(it, "range_check", dist, 252)                                           # ... also < 2^252, hence s <= r_j - 1
+    c_range_check_call(it, None, [dist, 252])                                           # ... also < 2^252, hence s <= r_j - 1
     return UNIT
 
 
@@ -757,7 +757,7 @@ def c_component_truncate(n):
         """low = the N low bits of the witness (fresh), low < 2^N, then the split binding (input, low, N); returns low"""
         w = a[0]
         low = c_append_witness(it, None, [rlow(n)])
-        ev(it, "range_check", low, n)
+        c_range_check_call(it, None, [low, n])
         ev(it, "bind_truncation_split", w, low, n)
         return low
     return c
@@ -768,7 +768,7 @@ def c_bind_truncation_split(nb):
         """high = the bits above nb (fresh), high < 2^(255-nb), input == 2^nb * high + low, and the canonical-split guard"""
         inp, low, _ = a
         high = c_append_witness(it, None, [rhigh(nb)])
-        ev(it, "range_check", high, 255 - nb)
+        c_range_check_call(it, None, [high, 255 - nb])
         ev(it, "gate_add", cons({"q_l": VOpaque("pow_of_2", [nb]), "q_r": 1, "a": high, "b": low}))
         rec = fresh_w(it)
         ev(it, "assert_equal", rec, inp)
@@ -785,7 +785,7 @@ def c_assert_canonical_truncation(nb):
         r_lo, r_hi = VOpaque("recompose_bits", [0, nb]), VOpaque("recompose_bits", [nb, 256])
         ev(it, "gate_add", cons({"q_l": NEG1, "a": high, "q_c": r_hi}))
         diff = fresh_w(it)
-        ev(it, "range_check", diff, 255 - nb)
+        c_range_check_call(it, None, [diff, 255 - nb])
         inv = c_append_witness(it, None, [VOpaque("havoc:diff_inverse")])
         ev(it, "gate_mul", cons({"q_m": 1, "a": diff, "b": inv}))
         prod = fresh_w(it)
@@ -796,7 +796,7 @@ def c_assert_canonical_truncation(nb):
         rml = fresh_w(it)
         ev(it, "gate_mul", cons({"q_m": 1, "a": is_top, "b": rml}))
         guard = fresh_w(it)
-        ev(it, "range_check", guard, nb)
+        c_range_check_call(it, None, [guard, nb])
         return UNIT
     return c
 
